@@ -501,6 +501,8 @@ void tickit_term_observe_sigwinch(TickitTerm *tt, bool observe)
       tailp = &(*tailp)->next_sigwinch_observer;
     if(tailp)
       *tailp = (*tailp)->next_sigwinch_observer;
+    /* the terminal may observe again later: it must not be appended with a link into the list it has left */
+    tt->next_sigwinch_observer = NULL;
 
     if(!first_sigwinch_observer)
       sigaction(SIGWINCH, &(struct sigaction){ .sa_handler = SIG_DFL }, NULL);
